@@ -331,4 +331,18 @@ def findRoute (ty : String) : List Route → Option String
   | [] => none
   | r :: rs => if r.types.contains ty then some r.helper else findRoute ty rs
 
+/-- An argument of a call inside a schema method / check constructor / `validate` shorthand, as an
+    EXPRESSION over the enclosing function's parameters (round 4c, audit M10: the translator used to
+    record every non-constant argument as "the method's own bound", so `checks.Gt(value+1)` produced
+    the same table row as `checks.Gt(value)`):
+    `.param i` = the i-th parameter passed unchanged, `.rest` = the variadic parameter forwarded
+    (`params...`), `.lit n` = an integer constant (evaluated by go/constant), `.raw "<go>"` = anything
+    else — it has no meaning, the table theorems fail on it. -/
+inductive Arg where
+  | param (i : Nat)
+  | rest
+  | lit (n : Int)
+  | raw (go : String)
+  deriving DecidableEq, Repr, Inhabited
+
 end Gozod.Dispatch
